@@ -40,6 +40,15 @@ def main():
     meta = {'property': pid, 'seed_id': sid, 'confirmed_at': time.strftime('%Y-%m-%dT%H:%M:%S'), 'ran': []}
     env = dict(os.environ, PYTHONPATH=wt, PYTHONDONTWRITEBYTECODE='1')
 
+    if not os.path.isdir(wt):
+        # the seeding worktree is gone: re-run only our check, keep the recorded confirmation
+        old = json.load(open(os.path.join(out, 'meta.json')))
+        meta.update({k: old[k] for k in ('demo_without_patch_rc', 'demo_with_patch_rc', 'demo_with_patch_tail',
+                                         'pinned_tests_passed_with_patch', 'pinned_tests_tail', 'history')
+                     if k in old})
+        meta['patch_applies'] = True
+        meta['confirmed'] = bool(old.get('confirmed'))
+        return run_check(meta, out, pid, sid, tier)
     sh('git checkout -- . ', cwd=wt)
     rc0, o0 = sh(f'/venv/bin/python {seed}/demo.py', cwd=seed, env=env, timeout=900)
     meta['demo_without_patch_rc'] = rc0
@@ -61,6 +70,10 @@ def main():
     meta['confirmed'] = bool(meta['patch_applies'] and rc0 == 0 and rc1 != 0 and
                              (skip_tests or meta.get('pinned_tests_passed_with_patch', 0) >= 58))
 
+    return run_check(meta, out, pid, sid, tier)
+
+
+def run_check(meta, out, pid, sid, tier):
     # our check against the change.  Default: a scratch worktree of /repo HEAD with the patch applied, handed to
     # ./check through EDB_VERIF_REPO (other work on /repo is not disturbed).  --in-repo applies it to /repo itself
     # (git -C /repo apply; ./check; git -C /repo checkout -- .), which is how the checks are meant to be used.
